@@ -87,9 +87,21 @@ def _run(case, frames, stream, layout, total, cuts, kinds, expected_all, gaps, s
 
         conn2.process_packet = pp
         h2.data_received(wire.enc_plain(26, b"\x0d\x09\x00\x00\x00") + wire.enc_plain(5, b"") + wire.enc_plain(25, b"\x0d\x02\x00\x00\x00") + wire.enc_plain(200, b"\x01" * 40))
+    nb_chunks: list = []
+    if case.get("neighbour_stream"):
+        # another plaintext connection of this process is in the middle of large payloads of its own, its reads
+        # interleaved with ours: two byte streams, two helpers, nothing shared
+        classes.add("neighbour_mid_payload")
+        h3, conn3, _tr3 = fstub.make_plain(sim)
+        nb_frames = [(26, b"\x0d" + bytes([0x30 + j]) * 299) for j in range(3)]
+        nb_stream = b"".join(wire.enc_plain(t, p) for t, p in nb_frames)
+        step = max(1, int(case["neighbour_stream"]))
+        nb_chunks = [nb_stream[j:j + step] for j in range(0, len(nb_stream), step)]
     bounds = {e for (_s, _h, e) in layout} | {0}
     inside = False
     for i, chunk in enumerate(wire.iter_cut(stream, cuts)):
+        if nb_chunks:
+            h3.data_received(nb_chunks.pop(0))
         kind = kinds[i % len(kinds)]
         for act in (case.get("flow") or {}).get(str(i), []):
             # the transport's write-side flow control has nothing to do with reading: frames are still handed over as
@@ -147,6 +159,11 @@ def _run(case, frames, stream, layout, total, cuts, kinds, expected_all, gaps, s
                 res.violations.append(Violation(ID, "c01:changed-while-waiting-for-more-bytes",
                                                 f"after chunk {i} ({fed}/{total} bytes) and {g}s without new data: {len(conn.packets)} frames delivered (expected {len(exp)}), errors={conn.errors!r} closed={tr.closed}"))
                 break
+    if case.get("neighbour_stream") and not res.violations:
+        while nb_chunks:
+            h3.data_received(nb_chunks.pop(0))
+        if [(t, bytes(p)) for t, p in conn3.packets] != nb_frames or conn3.errors:
+            res.violations.append(Violation(ID, "c01:neighbour-stream-disturbed", f"the other connection's helper delivered {[(t, len(p)) for t, p in conn3.packets]} (errors {conn3.errors!r}), its stream held {[(t, len(p)) for t, p in nb_frames]}"))
     if len(frames) > 64:
         classes.add("frames_gt_64")
     for c in cuts:
@@ -208,6 +225,8 @@ def _case(draw, tier):
             case["gaps"] = draw(st.lists(st.sampled_from([0, 0, 0.01, 1]), min_size=1, max_size=3))
     elif r == 7:
         case["neighbour_closes"] = True
+        if draw(st.booleans()):
+            case["neighbour_stream"] = draw(st.sampled_from([7, 50, 100, 301]))
     elif r == 5:
         case["gaps"] = draw(st.lists(st.sampled_from([0, 0.01, 1, 5, 9.5, 29, 31, 45, 100, 1000]), min_size=1, max_size=4))
     return case
@@ -259,6 +278,10 @@ def enumerated(tier):
     for g in ([1], [9], [29, 2], [31], [100], [0.01, 600]):
         yield {"frames": fr, "repeat": 12, "cuts": mids, "kinds": [0, 1], "gaps": g}
     yield {"frames": [[35, {"h": "", "pad": [1, 3000]}]], "cuts": list(range(100, 3000, 100)), "kinds": [0], "gaps": [2]}
+    big3 = [[35, {"h": "", "pad": [0x41 + j, 400]}] for j in range(3)]
+    for step in (50, 90):
+        for nb in (50, 70, 130):
+            yield {"frames": big3, "cuts": list(range(step, 1200, step)), "kinds": [0], "neighbour_stream": nb}
     four = [[26, {"h": "0d01000000"}], [7, {"h": ""}], [300, {"h": "0102"}], [25, {"h": "0d02000000"}]]
     for cuts in ([], [8], [3, 14]):
         yield {"frames": four, "cuts": cuts, "kinds": [0, 1], "neighbour_closes": True}
